@@ -11,6 +11,8 @@ import (
 
 	"github.com/elnosh/gonuts/mint/lightning"
 	decodepay "github.com/nbd-wtf/ln-decodepay"
+
+	"verif/harness/dbwrap"
 )
 
 // Answer codes for scripted replies.
@@ -115,22 +117,44 @@ func (l *LN) Settle(hash string) {
 }
 
 // Deliver wakes the subscriptions of a settled invoice (the backend's asynchronous notification).
-func (l *LN) Deliver(hash string) int {
+func (l *LN) Deliver(hash string) int { return len(l.DeliverGIDs(hash)) }
+
+// DeliverPairs is Deliver returning, per woken subscription, the goroutine ids {owner, receiver}.
+func (l *LN) DeliverPairs(hash string) [][2]int64 {
 	l.mu.Lock()
 	defer l.mu.Unlock()
 	inv := l.Invoices[hash]
 	if inv == nil || !inv.Settled {
-		return 0
+		return nil
 	}
-	n := 0
+	var g [][2]int64
 	for _, s := range inv.subs {
-		if !s.delivered {
+		if !s.delivered && s.ctx.Err() == nil {
 			s.delivered = true
-			n++
+			g = append(g, [2]int64{s.OwnerGID, s.RecvGID})
 		}
 	}
 	l.subCond.Broadcast()
-	return n
+	return g
+}
+
+// DeliverGIDs is Deliver returning the goroutine ids of the woken subscribers' owners.
+func (l *LN) DeliverGIDs(hash string) []int64 {
+	l.mu.Lock()
+	defer l.mu.Unlock()
+	inv := l.Invoices[hash]
+	if inv == nil || !inv.Settled {
+		return nil
+	}
+	var g []int64
+	for _, s := range inv.subs {
+		if !s.delivered && s.ctx.Err() == nil {
+			s.delivered = true
+			g = append(g, s.OwnerGID)
+		}
+	}
+	l.subCond.Broadcast()
+	return g
 }
 
 // WaitBlocked waits until at least n subscriptions of the invoice are blocked in Recv (watcher parked).
@@ -360,6 +384,10 @@ type Sub struct {
 	delivered bool
 	blocked   bool
 	done      bool
+	// OwnerGID is the goroutine that subscribed (the mint's checkInvoicePaid goroutine)
+	OwnerGID int64
+	// RecvGID is the goroutine blocked in Recv (the watcher's inner goroutine)
+	RecvGID int64
 }
 
 func (c *Client) SubscribeInvoice(ctx context.Context, paymentHash string) (lightning.InvoiceSubscriptionClient, error) {
@@ -370,7 +398,7 @@ func (c *Client) SubscribeInvoice(ctx context.Context, paymentHash string) (ligh
 	if inv == nil {
 		return nil, errors.New("invoice not found")
 	}
-	s := &Sub{l: c.l, hash: paymentHash, ctx: ctx}
+	s := &Sub{l: c.l, hash: paymentHash, ctx: ctx, OwnerGID: dbwrap.GID()}
 	inv.subs = append(inv.subs, s)
 	// wake Recv when the context is cancelled (mint shutdown)
 	go func() {
@@ -384,8 +412,10 @@ func (c *Client) SubscribeInvoice(ctx context.Context, paymentHash string) (ligh
 
 // Recv blocks until the settled notification is delivered (Deliver) or the context is cancelled.
 func (s *Sub) Recv() (lightning.Invoice, error) {
+	g := dbwrap.GID()
 	s.l.mu.Lock()
 	defer s.l.mu.Unlock()
+	s.RecvGID = g
 	for {
 		if s.ctx.Err() != nil {
 			return lightning.Invoice{}, s.ctx.Err()
